@@ -193,6 +193,7 @@ def oracle(ctx):
                 ctx.fail("oracle", "mingrad:%s:%s" % (fwd, nm), {"forward": fwd}, x_, y_)
     backward_options_probe(ctx)
     object_param_krylov_probe(ctx)
+    round4_probes(ctx)
 
 
 def backward_options_probe(ctx):
@@ -316,6 +317,94 @@ def object_param_krylov_probe(ctx):
                     if not torch.allclose(x_, y_, rtol=1e-5, atol=1e-7):
                         ctx.fail("oracle", "rootgrad:object-params:%s:%s" % (bck["method"], nm), info, x_, y_)
                         break
+
+
+def round4_probes(ctx):
+    """(a) one tensor reaching the function through two routes (twice in params; in params and held by the function's object): the
+    gradient is the sum of the two partial derivatives, for rootfinder, equilibrium and minimize (round-4 seed C04/10: one
+    differentiable copy per distinct tensor instead of one per slot);  (b) the backward linear solve with documented options the
+    defaults never use - a right preconditioner, a larger system with a spread spectrum so that the periodic recomputation of the
+    residual runs - still gives the implicit-function gradient (C04/11, C04/12)"""
+    import xitorch as xt
+    from xitorch.optimize import rootfinder, equilibrium, minimize
+    a = torch.tensor([0.7, 1.3, 0.4], dtype=DT, requires_grad=True)
+    w = torch.tensor([1.0, -2.0, 0.5], dtype=DT)
+
+    class Hold(torch.nn.Module):
+        def __init__(self, p):
+            super().__init__()
+            self.p = p
+
+        def f(self, y, q):
+            return y ** 3 + (1.0 + self.p * self.p) * y - q - 0.3 * self.p
+
+        def g(self, y, q):
+            return 0.2 * torch.tanh(y) * self.p + 0.3 * q
+
+        def h(self, y, q):
+            return (0.25 * y ** 4 + 0.5 * (1.0 + self.p * self.p) * y * y - (q + 0.3 * self.p) * y).sum()
+    pa = torch.nn.Parameter(a.detach().clone())
+    hold = Hold(pa)
+    z = torch.zeros(3, dtype=DT)
+    cases = [("rootfinder:twice-in-params", lambda: rootfinder(lambda y, p, q: y ** 3 + (1.0 + p * p) * y - q - 0.3 * p, z, params=(a, a), f_tol=1e-13), a,
+              lambda t: (lambda y: y ** 3 + (1.0 + t * t) * y - t - 0.3 * t)),
+             ("equilibrium:twice-in-params", lambda: equilibrium(lambda y, p, q: 0.2 * torch.tanh(y) * p + 0.3 * q, z, params=(a, a), f_tol=1e-13), a,
+              lambda t: (lambda y: 0.2 * torch.tanh(y) * t + 0.3 * t - y)),
+             ("minimize:twice-in-params", lambda: minimize(lambda y, p, q: (0.25 * y ** 4 + 0.5 * (1.0 + p * p) * y * y - (q + 0.3 * p) * y).sum(), z, params=(a, a), f_tol=1e-13), a,
+              lambda t: (lambda y: y ** 3 + (1.0 + t * t) * y - t - 0.3 * t)),
+             ("rootfinder:in-params-and-in-module", lambda: rootfinder(hold.f, z, params=(pa,), f_tol=1e-13), pa,
+              lambda t: (lambda y: y ** 3 + (1.0 + t * t) * y - t - 0.3 * t)),
+             ("equilibrium:in-params-and-in-module", lambda: equilibrium(hold.g, z, params=(pa,), f_tol=1e-13), pa,
+              lambda t: (lambda y: 0.2 * torch.tanh(y) * t + 0.3 * t - y)),
+             ("minimize:in-params-and-in-module", lambda: minimize(hold.h, z, params=(pa,), f_tol=1e-13), pa,
+              lambda t: (lambda y: y ** 3 + (1.0 + t * t) * y - t - 0.3 * t))]
+    for name, call, leaf, resid_of in cases:
+        try:
+            with warnings.catch_warnings():
+                warnings.simplefilter("ignore")
+                y = call()
+                g1, = torch.autograd.grad((y * w).sum(), leaf)
+        except Exception as e:
+            ctx.fail("oracle", "rootgrad:aliased-tensor:%s:exception" % name, {}, repr(e)[:200], "the total derivative")
+            continue
+        # implicit function theorem on the residual with the two routes merged: dy/dt = -(dF/dy)^-1 dF/dt
+        t = leaf.detach().clone().requires_grad_()
+        yd = y.detach().clone().requires_grad_()
+        F = resid_of(t)(yd)
+        Jy = torch.stack([torch.autograd.grad(F[i], yd, retain_graph=True)[0] for i in range(3)])
+        Jt = torch.stack([torch.autograd.grad(F[i], t, retain_graph=True)[0] for i in range(3)])
+        ref = -(torch.linalg.solve(Jy, Jt)).T @ w
+        ctx.count(("aliased-tensor", name), nontrivial=True)
+        if not torch.allclose(g1, ref, rtol=1e-6, atol=1e-8):
+            ctx.fail("oracle", "rootgrad:aliased-tensor:%s" % name, {"routes": name.split(":")[1]}, g1, ref)
+    # (b) larger system, Krylov backward with documented options
+    g = torch.Generator().manual_seed(ctx.seed + 71)
+    n = 24
+    Q, _ = torch.linalg.qr(torch.randn(n, n, dtype=DT, generator=g))
+    A = (Q * torch.logspace(0, 2, n, dtype=DT)) @ Q.T + 0.1 * torch.randn(n, n, dtype=DT, generator=g)
+    wv = torch.cos(torch.arange(n, dtype=DT))
+    pre = xt.LinearOperator.m(torch.linalg.inv(A.T + 0.5 * torch.eye(n, dtype=DT)), is_hermitian=False)
+    for bck in (dict(method="bicgstab", rtol=1e-12, atol=1e-14), dict(method="bicgstab", rtol=1e-12, atol=1e-14, resid_calc_every=3),
+                dict(method="bicgstab", rtol=1e-12, atol=1e-14, precond_r=pre), dict(method="bicgstab", rtol=1e-12, atol=1e-14, precond_l=pre)):
+        b = torch.randn(n, dtype=DT, generator=g).requires_grad_()
+        s_ = torch.tensor(0.3, dtype=DT, requires_grad=True)
+        fbig = lambda y, b, s: y @ A.T + s * torch.tanh(y) - b
+        desc = {k: (v if not isinstance(v, xt.LinearOperator) else "<operator>") for k, v in bck.items()}
+        try:
+            with warnings.catch_warnings():
+                warnings.simplefilter("ignore")
+                y = rootfinder(fbig, torch.zeros(n, dtype=DT), params=(b, s_), method="broyden1", f_tol=1e-12, x_tol=1e-12, maxiter=400, bck_options=bck)
+                gb, gs = torch.autograd.grad((y * wv).sum(), (b, s_))
+        except Exception as e:
+            ctx.fail("oracle", "rootgrad:krylov-backward-options:exception", {"bck_options": desc}, repr(e)[:200], "gradients")
+            continue
+        J = A + torch.diag(s_.detach() * (1 - torch.tanh(y.detach()) ** 2))
+        lam = torch.linalg.solve(J.T, wv)
+        ref_b, ref_s = lam, -(lam * torch.tanh(y.detach())).sum()
+        ctx.count(("krylov-backward-options", tuple(sorted(desc))), nontrivial=True)
+        if not torch.allclose(gb, ref_b, rtol=1e-6, atol=1e-8) or not torch.allclose(gs, ref_s, rtol=1e-6, atol=1e-8):
+            ctx.fail("oracle", "rootgrad:krylov-backward-options", {"n": n, "bck_options": desc},
+                     {"max_diff_b": float((gb - ref_b).abs().max()), "diff_s": float((gs - ref_s).abs())}, "the implicit-function gradient (rtol 1e-12 requested)")
 
 
 def search(ctx):
